@@ -218,6 +218,9 @@ class GetHeadersMessage:
 
     def __init__(self, version=70015, num_hashes=1, start_block=None, end_block=None):
         self.version = version
+        # exactly one locator hash (start_block) is serialized
+        if num_hashes != 1:
+            raise ValueError("num_hashes has to be 1: one start block is sent")
         self.num_hashes = num_hashes
         if start_block is None:
             raise RuntimeError("a start block is required")
